@@ -1,3 +1,3 @@
 From Coq Require Import Extraction ExtrOcamlBasic.
 From LT Require Import CoinFlipModel CoinFlipNModel.
-Extraction "model.ml" flip2 script_peer commit check_element fspowm extract_log flipN_complaint flipN_share flipN_sum flipN_party dealer_qualified final_share my_complaint matches.
+Extraction "model.ml" flip2 script_peer commit check_element fspowm extract_log flipN_complaint flipN_share flipN_sum flipN_party dealer_qualified final_share my_complaint matches complaint_set.
